@@ -17,6 +17,8 @@ def classify(op, R):
         k = "valid" if (w >= 1 and h >= 1 and 0 <= ss < 7 and al >= 1 and al & (al - 1) == 0) else "invalid"
         big = "big" if max(w, h) > 1 << 20 else "small"
         return "yuvgeom:%s:%s" % (k, big)
+    if p[0] == "yuvcomp":
+        return "yuvcomp:ss%s:w%d:h%d" % (p[3], int(p[1]) % 4, int(p[2]) % 2)
     if p[0] == "yuvcontent":
         return "yuvcontent:ss%s:sf%s:stride%s" % (p[3], p[4], p[6])
     return p[0]
@@ -53,6 +55,9 @@ def gen_ops(rng, tier):
         sfi = rng.randrange(16) if rng.random() < .75 else 8
         pf = rng.choice([0, 1, 2, 3, 4, 5, 7, 8, 9, 10, 6])
         ops.append("yuvcontent %d %d %d %d %d %d %d %d" % (w, h, ss, sfi, pf, rng.randrange(5), rng.choice([1, 2, 4, 8, 16, 32]), rng.randrange(1 << 30)))
+        # compression from planar YUV: every description of the same planes gives the same JPEG
+        if rng.random() < .5:
+            ops.append("yuvcomp %d %d %d %d" % (rng.choice([w, rng.randint(1, 40), 35, 33, 17]), rng.choice([h, rng.randint(1, 30), 19, 7]), rng.randrange(6), rng.randrange(1 << 30)))
     for d in [1, 2, 3, 7, 8, 9, 15, 16, 17, 100, 227, 65500, 1 << 20] + [rng.randint(1, 1 << 24) for _ in range(60 if big else 15)]:
         ops.append("scaled %d" % d)
     return ops
